@@ -210,6 +210,7 @@ type Profile struct {
 	SendLose   int      // sender submission itself fails before/after with probability 1/SendLose
 	Crash      int      // the kernel crashes at a flush position with probability 1/Crash
 	MaxCrashes int      // at most this many crashes per case (default 2)
+	CommitFail int      // the COMMIT of a store batch fails (rolled back by the database) with probability 1/CommitFail
 	NoShadow   bool     // sequential re-runner: no shadow store, no trace (transactions executed one at a time)
 	Permute    bool     // permute pending submissions
 	ApiSize    int      // api queue size (default 1000)
@@ -257,6 +258,7 @@ type Kernel struct {
 	Sender *sender.SenderWorker
 	poll   *recPlugin
 	http   *recPlugin
+	hooks  *core.Hooks
 }
 
 func NewStore(path string) *sqlite.SqliteStore {
@@ -342,8 +344,9 @@ type Sim struct {
 
 	// crash-point enumeration (C06): every flush position is a crash opportunity, numbered in CrashPos;
 	// when CrashAt >= 0 the kernel crashes at exactly that opportunity
-	CrashAt  int
-	CrashPos int
+	CrashAt        int
+	CrashPos       int
+	CommitFailures int
 	routerFails map[string]int
 	Problems []string // harness-level disagreements (primary vs shadow store)
 	BgRuns   map[string]int
@@ -400,7 +403,17 @@ func (s *Sim) boot() {
 		panic(err)
 	}
 	st := NewStore(s.Path)
-	k := &Kernel{Api: ap, Store: st, Router: rt, poll: &recPlugin{typ: "poll"}, http: &recPlugin{typ: "http"}}
+	var hooks *core.Hooks
+	if s.Prof.CommitFail > 0 {
+		// the primary store runs on an instrumented connection so that a COMMIT can be made to fail
+		_ = st.Stop()
+		hooks = &core.Hooks{FailAt: -1}
+		var err error
+		if st, err = sqlite.NewVerif(core.OpenHooked(s.Path, hooks), m, &sqlite.Config{Size: 10, BatchSize: 1000, Path: s.Path, TxTimeout: 10 * time.Second}); err != nil {
+			panic(err)
+		}
+	}
+	k := &Kernel{Api: ap, Store: st, Router: rt, poll: &recPlugin{typ: "poll"}, http: &recPlugin{typ: "http"}, hooks: hooks}
 	targets := s.Prof.Targets
 	if targets == nil {
 		targets = map[string]*receiver.Recv{"default": {Type: "poll", Data: []byte(`{"group":"default"}`)}}
@@ -596,7 +609,19 @@ func (s *Sim) Flush(t int64) {
 		for i, x := range batch {
 			sqes[i] = x.sqe
 		}
+		commitFailed := false
+		if s.K.hooks != nil {
+			s.K.hooks.Reset(-1)
+			if d.OneIn(s.Prof.CommitFail, "commitfail") {
+				s.K.hooks.Reset(-2)
+				commitFailed = true
+			}
+		}
 		cqes := s.K.Store.Process(sqes)
+		if commitFailed {
+			s.CommitFailures++
+			s.K.hooks.Reset(-1)
+		}
 		failedAll := true
 		for _, c := range cqes {
 			if c.Error == nil {
@@ -724,7 +749,7 @@ func (s *Sim) send(x *pend, t int64) {
 	}
 	outcome := "success"
 	if s.Prof.SendFail > 0 && d.On() {
-		switch v := d.Int(0, s.Prof.SendFail-1, "sendoutcome"); {
+		switch v := d.Uni(s.Prof.SendFail, "sendoutcome"); {
 		case v == 0:
 			outcome = "refused"
 		case v == 1:
